@@ -68,7 +68,10 @@ DESIGN_EXTRA = {
             ("MC_BalloonsReconf", "MC_BalloonsReconf_leak_balloonless.cfg", "Inv_StoppedHoldsNothing"),     # F-C09-5 shape
             ("MC_BalloonsReconf", "MC_BalloonsReconf_readmit_exited.cfg", "Inv_StoppedHoldsNothing"),       # F-C09-1 shape
             ("MC_BalloonsReconf", "MC_BalloonsReconf_reach.cfg", "Goal_BalloonlessAlive")],                 # reachability
-    "C13": [("MC_BalloonsReconf", "MC_BalloonsReconf_none.cfg", None)],
+    "C13": [("MC_BalloonsReconf", "MC_BalloonsReconf_none.cfg", None),
+            ("MC_TopologyAware", "MC_TopologyAware_quick.cfg", None),
+            ("MC_TopologyAware", "MC_TopologyAware_strictreserve.cfg", "Inv_ReinstateAnyOrder"),
+            ("MC_TopologyAware", "MC_TopologyAware_starvedreinstate.cfg", "Inv_ReinstateAlways")],
     # restart + Synchronize with a cache persisted only at some points of some requests: the design passes, the defect
     # F-C11-1 and the two independently seeded C11 changes are refuted by TLC, the hard situations are reachable
     "C11": [("Recovery", "MC_Recovery_none.cfg", None),
@@ -79,6 +82,9 @@ DESIGN_EXTRA = {
             ("Recovery", "MC_Recovery_reach2.cfg", "Goal_StaleRunning")],
     # F-C05-1 at design level: the strict statement "every live container holds a grant" must be refuted by TLC
     "C03": [("MC_TopologyAware", "MC_TopologyAware_dropped.cfg", "Inv_LiveHoldsGrantStrict")],
+    # re-instating grants after a (re)configuration succeeds in EVERY order unless a pool is starved (checked as an invariant
+    # of the main configuration); with a starved pool some order fails (F-C05-5), and with a strict admission test in
+    # Reserve (seeded change C13-m2) some order fails even without: both must be refuted by TLC
 }
 
 
